@@ -26,6 +26,10 @@ def P(name, pkg, test, qto=300, tto=1500, **kw):
     d["common"] = kw
     return d
 
+def F(name, pkg, fuzz, secs=40, **kw):
+    """native go fuzz target, thorough tier only."""
+    return dict(name=name, pkg=pkg, test=fuzz, kind="fuzz", quick=dict(skip=True), thorough=dict(fuzztime=secs, timeout=secs + 240), common=kw)
+
 PROPS = {}
 
 PROPS["C19"] = dict(
@@ -41,6 +45,7 @@ PROPS["C19"] = dict(
         R("C19.distance_laws_random", "kad", "TestC19DistanceLawsRandom", 10000, 500000),
         P("C19.distance_laws_exhaustive", "kad", "TestC19DistanceLawsExhaustive"),
         R("C19.node_list_nearest", "kad", "TestC19NodeInfos", 2000, 80000),
+        F("C19.fuzz_distance_laws", "kad", "FuzzDistanceLaws"),
     ],
 )
 
@@ -83,6 +88,8 @@ PROPS["C17"] = dict(
         R("C17.key_roundtrip", "codec", "TestC17KeyRoundTrip", 6000, 400000),
         R("C17.wire_independence", "codec", "TestC17WireIndependence", 3000, 200000),
         R("C17.peerid_text", "codec", "TestC17PeerIDText", 8000, 400000),
+        F("C17.fuzz_key_parse", "codec", "FuzzKeyParse"),
+        F("C17.fuzz_peerid_text", "codec", "FuzzPeerIDText"),
     ],
 )
 
@@ -96,6 +103,7 @@ PROPS["C16"] = dict(
     subs=[
         R("C16.generated", "codec", "TestC16Generated", 8000, 500000),
         R("C16.arbitrary_text", "codec", "TestC16ArbitraryText", 8000, 500000),
+        F("C16.fuzz_addr_parse", "codec", "FuzzAddrParse"),
     ],
 )
 
@@ -232,6 +240,10 @@ PROPS["C08"] = dict(
         R("C08.parsers", "crash", "TestC08Parsers", 3000, 200000),
         R("C08.p2pke_session_channel", "crash", "TestC08Session", 500, 25000),
         R("C08.p2pkeswarm_multiswarm_dht", "crash", "TestC08SwarmsAndDHT", 500, 25000),
+        F("C08.fuzz_session_deliver", "crash", "FuzzSessionDeliver"),
+        F("C08.fuzz_frag_packet", "crash", "FuzzFragPacket"),
+        F("C08.fuzz_mux_packet", "crash", "FuzzMuxPacket"),
+        F("C08.fuzz_mbapp_header", "crash", "FuzzMbappHeader", 20),
     ],
 )
 
